@@ -170,6 +170,29 @@ def run(ctx):
                             ctx.violation({"shape": "cartwright", "clause": clause, "under_90": under}, msg, {"nd": nd, "dspr": dspr, "dm": dm})
                     else:
                         ctx.replayed()
+    # ---- every shape parameter reaches the shape: TMA in deep water equals JONSWAP for non-default alpha / sigma_a / sigma_b too
+    # (scaled and unscaled), and JONSWAP(gamma=1) equals Pierson-Moskowitz for non-default alpha
+    from wavespectra.construct.frequency import jonswap as cj2, tma as ctma, pierson_moskowitz as cpm
+    fq = np.linspace(0.04, 0.5, 47)
+    for alpha, sa, sb, gamma, hs in ((0.0081, 0.07, 0.09, 3.3, None), (0.02, 0.05, 0.12, 2.0, None), (0.004, 0.1, 0.06, 5.0, 2.5), (0.0081, 0.05, 0.09, 1.0, 1.0)):
+        for fp in (0.08, 0.2):
+            ctx.case(("shape-params", alpha, sa, sb, gamma, hs, fp), True)
+            kw = dict(alpha=alpha, gamma=gamma, sigma_a=sa, sigma_b=sb, hs=hs)
+            a = np.asarray(ctma(freq=fq, fp=fp, dep=4000.0, **kw).values, float)
+            b = np.asarray(cj2(freq=fq, fp=fp, **kw).values, float)
+            probs = []
+            if not np.allclose(a, b, rtol=1e-9, atol=1e-300):
+                probs.append(("tma-deep-is-jonswap", "TMA(dep=4000 m) differs from JONSWAP for alpha=%g sigma=(%g, %g): max relative difference %.3g" %
+                              (alpha, sa, sb, float(np.nanmax(np.abs(a - b) / np.maximum(np.abs(b), 1e-300))))))
+            if gamma == 1.0:
+                c = np.asarray(cpm(freq=fq, fp=fp, alpha=alpha, hs=hs).values, float)
+                if not np.allclose(b, c, rtol=1e-9, atol=1e-300):
+                    probs.append(("jonswap-gamma1-is-pm", "JONSWAP(gamma=1, alpha=%g) differs from Pierson-Moskowitz" % alpha))
+            if probs:
+                for clause, msg in probs:
+                    ctx.violation({"shape": "tma", "clause": clause, "default_sigma": (sa, sb) == (0.07, 0.09)}, msg, {"alpha": alpha, "sigma_a": sa, "sigma_b": sb, "gamma": gamma, "hs": hs, "fp": fp})
+            else:
+                ctx.replayed()
     # ---- the numpy twins of the shape functions (model functions of fit_jonswap / fit_gaussian): scaled = unscaled * h^2 / Hs^2
     # under the twin's own measure (trapezoid + tail above 0.333 Hz), same shape as the constructor, gaussian identical
     from wavespectra.core import npstats
